@@ -4,9 +4,9 @@ package main
 // reports and counts those whose two access stacks are both inside the library.
 
 import (
-	"fmt"
 	"bufio"
 	"context"
+	"fmt"
 	"io"
 	"sync"
 	"sync/atomic"
